@@ -276,6 +276,22 @@ def writes_in(fn: ast.AST) -> list:
             p = dotted(recv)
             if p:
                 out.append((p, ("elem-" if nested else "") + "call-" + n.func.attr, n))
+    # a loop variable that ranges over a literal tuple/list of access paths is an alias of each of them:
+    #   for stack in (self.contexts, self.maps): del stack[:n]
+    alias = {}
+    for n in walk_local(fn):
+        if isinstance(n, (ast.For, ast.AsyncFor)) and isinstance(n.target, ast.Name) and isinstance(n.iter, (ast.Tuple, ast.List)):
+            paths = [dotted(e) for e in n.iter.elts]
+            if paths and all(paths):
+                alias.setdefault(n.target.id, []).extend(paths)
+    if alias:
+        extra = []
+        for (p, kind, node) in out:
+            head, _, rest = p.partition(".")
+            if head in alias:
+                for q in alias[head]:
+                    extra.append((q + ("." + rest if rest else ""), kind, node))
+        out.extend(extra)
     return out
 
 
